@@ -60,6 +60,26 @@ func main() {
 	if mode == "selftest" {
 		os.Exit(selftest())
 	}
+	if mode == "fuzzcase" {
+		// converts a Go fuzz crasher file into a replay file for C07 and prints the VIOLATION line
+		b, err := os.ReadFile(id)
+		if err != nil {
+			fmt.Fprintln(os.Stderr, err)
+			os.Exit(2)
+		}
+		src := ""
+		for _, ln := range strings.Split(string(b), "\n") {
+			if strings.HasPrefix(ln, "string(") && strings.HasSuffix(ln, ")") {
+				if s, err := strconv.Unquote(ln[len("string(") : len(ln)-1]); err == nil {
+					src = s
+				}
+			}
+		}
+		v := Violation{Property: "C07", Case: Case{Gen: "coverage-guided-fuzz", Src: src}, Why: "coverage-guided fuzzing found a valid program that makes the interpreter panic", Signature: "fuzz-crash"}
+		path := writeReplay(envOr("VERIF_DIR", "/verif"), v)
+		fmt.Printf("VIOLATION property=C07 replay=%s\n  source: %s\n", path, trunc(strings.ReplaceAll(src, "\n", "⏎"), 300))
+		os.Exit(1)
+	}
 	def, ok := registry[id]
 	if !ok {
 		fmt.Fprintf(os.Stderr, "unknown check %q\n", id)
@@ -316,6 +336,12 @@ func runParent(def *CheckDef, tier string, seed int64, scratch string, nw int) i
 		"skipped_out_of_domain": counters["skipped_out_of_domain"],
 		"inconclusive_cases":    inconclusive,
 		"workers":               nw,
+	}
+	if fs := os.Getenv("VERIF_FUZZ_SUMMARY"); fs != "" {
+		var v interface{}
+		if json.Unmarshal([]byte(fs), &v) == nil {
+			cov["coverage_guided_fuzzing"] = v
+		}
 	}
 	if rs := os.Getenv("VERIF_RACE_SUMMARY"); rs != "" {
 		var v interface{}
